@@ -24,6 +24,7 @@ pub fn cfg_to_json(cfg: &TableCfg) -> J {
         "kmod": match cfg.kmod { KMod::None => "none", KMod::NotNull => "notnull", KMod::Default => "default", KMod::Trim => "trim" },
         "nmod": match cfg.nmod { NMod::None => "none", NMod::NotNull => "notnull", NMod::Default => "default" },
         "order": cfg.order,
+        "b_not_null": cfg.b_not_null,
     })
 }
 
@@ -54,7 +55,7 @@ pub fn cfg_from_json(v: &J) -> Option<TableCfg> {
             "k" => "k",
             "n" => "n",
             "r" => "r",
-            "b" if variant == Variant::Capture => "b",
+            "b" if variant == Variant::Capture || variant == Variant::Multi => "b",
             "d" if variant == Variant::Capture => "d",
             _ => return None,
         };
@@ -68,7 +69,8 @@ pub fn cfg_from_json(v: &J) -> Option<TableCfg> {
             return None;
         }
     }
-    Some(TableCfg { variant, kmod, nmod, with_b: order.contains(&"b"), with_ts: order.contains(&"d"), order })
+    let with_b = order.contains(&"b");
+    Some(TableCfg { variant, kmod, nmod, with_b, b_not_null: with_b && v.get("b_not_null").and_then(|x| x.as_bool()).unwrap_or(false), with_ts: order.contains(&"d"), order })
 }
 
 pub fn spec_to_json(s: &LineSpec) -> J {
@@ -91,7 +93,9 @@ pub fn spec_from_json(v: &J) -> Option<LineSpec> {
     }
     let r = text("r");
     if let Some(r) = &r {
-        if r.parse::<f64>().is_err() || !r.chars().enumerate().all(|(i, c)| c.is_ascii_digit() || c == '.' || (i == 0 && c == '-')) {
+        // (not-a-number and infinities: only C15's COUNT-only regime generates them, for split tables)
+        let special = ["NaN", "nan", "-NaN", "inf", "-inf"].contains(&r.as_str());
+        if !special && (r.parse::<f64>().is_err() || !r.chars().enumerate().all(|(i, c)| c.is_ascii_digit() || c == '.' || (i == 0 && c == '-'))) {
             return None;
         }
     }
